@@ -53,27 +53,43 @@ type c18RFile struct {
 	Batch    int
 	N        int
 	MaxRows  int64
+	Bloom    []string // columns with a bloom filter
+	NoBounds string   // column written with SkipPageBounds (its chunks have no column index)
+	Lay      *c18Layout
 	Data     []byte
 	Chunks   []*c18RChunk
 	WriteErr error
 }
 
 func (f *c18RFile) desc() string {
-	return fmt.Sprintf("rows=%d (k = d = row number) v%d PageBufferSize(%d) DictionaryMaxBytes(%d) MaxRowsPerRowGroup(%d) Write calls of %d rows | %s",
-		f.N, f.Version, f.PageBuf, f.DictMax, f.MaxRows, f.Batch, f.Enc.Desc())
+	return fmt.Sprintf("rows=%d (k = d = row number) v%d PageBufferSize(%d) DictionaryMaxBytes(%d) MaxRowsPerRowGroup(%d) bloom filters %v SkipPageBounds(%q) Write calls of %d rows | %s",
+		f.N, f.Version, f.PageBuf, f.DictMax, f.MaxRows, f.Bloom, f.NoBounds, f.Batch, f.Enc.Desc())
 }
 
 func c18RWrite(r *rand.Rand) *c18RFile {
 	schema := parquet.SchemaOf(c18RRow{})
 	f := &c18RFile{Enc: c18RandEnc(r, schema), Version: 1 + r.Intn(2), PageBuf: []int{24, 64, 200, 1000}[r.Intn(4)],
 		DictMax: []int64{0, 0, 120, 400}[r.Intn(4)], Batch: []int{1, 3, 7, 16}[r.Intn(4)], N: []int{1, 2, 9, 40, 100, 257}[r.Intn(6)],
-		MaxRows: []int64{0, 0, 50}[r.Intn(3)]}
+		MaxRows: []int64{0, 5, 50}[r.Intn(3)]}
 	opts := []parquet.WriterOption{parquet.DataPageVersion(f.Version), parquet.PageBufferSize(f.PageBuf), parquet.WithEncryption(f.Enc.Config())}
 	if f.DictMax > 0 {
 		opts = append(opts, parquet.DictionaryMaxBytes(f.DictMax))
 	}
 	if f.MaxRows > 0 {
 		opts = append(opts, parquet.MaxRowsPerRowGroup(f.MaxRows))
+	}
+	for _, col := range []string{"k", "d"} {
+		if r.Intn(3) == 0 {
+			f.Bloom = append(f.Bloom, col)
+			opts = append(opts, parquet.BloomFilters(parquet.SplitBlockFilter(10, col)))
+		}
+	}
+	if len(f.Bloom) == 2 { // BloomFilters replaces the list: both in one option
+		opts = append(opts, parquet.BloomFilters(parquet.SplitBlockFilter(10, "k"), parquet.SplitBlockFilter(10, "d")))
+	}
+	if r.Intn(4) == 0 {
+		f.NoBounds = []string{"k", "d"}[r.Intn(2)]
+		opts = append(opts, parquet.SkipPageBounds(f.NoBounds))
 	}
 	rows := make([]c18RRow, f.N)
 	for i := range rows {
@@ -104,6 +120,7 @@ func c18RWrite(r *rand.Rand) *c18RFile {
 		f.WriteErr = fmt.Errorf("walker: %w", err) // reported by the roundtrip sub-check
 		return f
 	}
+	f.Lay = lay
 	first := int64(0)
 	for gi, rg := range lay.Meta.RowGroups {
 		for ci := range rg.Columns {
